@@ -286,7 +286,7 @@ def topostress(spec):
     scheme = p.get("scheme") or rng.choice(["distinct", "blank_ter", "repeated_oxt", "merged_oxt", "many", "single",
                                             "mixed_na", "het_tail"])
     ff = spec["ff"]
-    nch = {"many": rng.randint(20, 70), "single": rng.randint(2, 5)}.get(scheme, rng.randint(2, 5))
+    nch = p.get("nch") or {"many": rng.randint(20, 70), "single": rng.randint(2, 5)}.get(scheme, rng.randint(2, 5))
     chains, kinds = [], []
     for c in range(nch):
         if scheme == "mixed_na" and c % 2 == 1 and NA_FFS.get(ff):
@@ -458,6 +458,14 @@ def apply_aliases(out, rng, prob):
         for alt, canon in d.alt.items():
             if alt not in d.atoms and len(alt) <= 4:
                 inv.setdefault(canon, []).append(alt)
+        if t["kind"] == "aa" and not t.get("cyclic"):
+            # terminal oxygens / amine hydrogens under the CHARMM- and old-PDB-style names the terminus patches document
+            _, patches, _ = topo.load()
+            tp = ([patches["CTERM"]] if t["pos"] in ("C", "NC") else []) + ([patches["NTERM"]] if t["pos"] in ("N", "NC") else [])
+            for pt in tp:
+                for alt, canon in pt.alt.items():
+                    if alt not in d.atoms and len(alt) <= 4 and alt not in inv.get(canon, []):
+                        inv.setdefault(canon, []).append(alt)
         used = {a["name"] for a in atoms}
         for a in atoms:
             if a["name"] in inv and rng.random() < 0.6:
